@@ -39,6 +39,8 @@ pub(crate) const YEARS_1000: u64 = 1_000 * 365 * 24 * 3600;
 pub(crate) const W1: [[u32; MAXN]; 2] = [[1; MAXN]; 2];
 /// weight table with distinct non-unit weights: class 0 (residents) and class 1 (updates/newcomers)
 pub(crate) const WT_A: [[u32; MAXN]; 2] = [[3, 5, 2, 4], [7, 1, 6, 9]];
+/// an update / newcomer class heavier than any capacity used (20), and a newcomer as heavy as both residents + 1
+pub(crate) const WT_B: [[u32; MAXN]; 2] = [[3, 5, 2, 4], [20, 1, 9, 9]];
 /// zero weights and a heavy one
 pub(crate) const WT_Z: [[u32; MAXN]; 2] = [[0, 4, 0, 3], [5, 0, 4, 0]];
 
